@@ -60,6 +60,25 @@ type r4client struct {
 	checked map[ssa.Instruction]bool
 }
 
+// iid: the identity of an index value; conversions between integer types do
+// not change what is known about it (lengths and positions are non-negative
+// and within int here).
+func (k *r4client) iid(v ssa.Value) int {
+	for {
+		cv, ok := v.(*ssa.Convert)
+		if !ok {
+			break
+		}
+		bt, ok1 := cv.Type().Underlying().(*types.Basic)
+		bx, ok2 := cv.X.Type().Underlying().(*types.Basic)
+		if !ok1 || !ok2 || bt.Info()&types.IsInteger == 0 || bx.Info()&types.IsInteger == 0 {
+			break
+		}
+		v = cv.X
+	}
+	return k.num.id(v)
+}
+
 func (k *r4client) Key(s r4state) string {
 	var ks []string
 	for f, d := range s.d {
@@ -85,7 +104,7 @@ func (k *r4client) Phis(s r4state, blk *ssa.BasicBlock, pred int) r4state {
 			continue
 		}
 		e := phi.Edges[pred]
-		eid := k.num.id(e)
+		eid := k.iid(e)
 		u := upd{phi: k.num.id(phi), facts: map[int]int{}}
 		for f, d := range s.d {
 			if f.idx == eid {
@@ -145,7 +164,7 @@ func (k *r4client) need(s r4state, in ssa.Instruction, idx ssa.Value, base ssa.V
 		_ = c
 		return // constant indices are I0's business
 	}
-	have, ok := s.d[r4fact{k.num.id(idx), k.num.id(root)}]
+	have, ok := s.d[r4fact{k.iid(idx), k.num.id(root)}]
 	if ok && have >= d {
 		return
 	}
@@ -201,12 +220,19 @@ func (k *r4client) Instr(s r4state, in ssa.Instruction) (r4state, bool, []r4stat
 				if x.Op == token.SUB {
 					c = -c
 				}
-				iid, jid := k.num.id(iv), k.num.id(x)
+				iid, jid := k.iid(iv), k.num.id(x)
 				for f, d := range s.d {
 					if f.idx == iid {
 						s = s.with(r4fact{jid, f.base}, d-int(c))
 					}
 				}
+			}
+		}
+	case *ssa.Call:
+		// n := len(x): n <= len(x)
+		if b, ok := x.Common().Value.(*ssa.Builtin); ok && b.Name() == "len" && len(x.Common().Args) == 1 {
+			if root := k.rootOf(x.Common().Args[0]); root != nil {
+				s = s.with(r4fact{k.num.id(x), k.num.id(root)}, 0)
 			}
 		}
 	case *ssa.IndexAddr:
@@ -277,7 +303,7 @@ func (k *r4client) Branch(s r4state, cond ssa.Value, outcome bool) (r4state, boo
 					op = token.EQL
 				}
 			}
-			f := r4fact{k.num.id(iv), k.num.id(root)}
+			f := r4fact{k.iid(iv), k.num.id(root)}
 			est := -1
 			switch op {
 			case token.LSS: // i < len
@@ -292,10 +318,57 @@ func (k *r4client) Branch(s r4state, cond ssa.Value, outcome bool) (r4state, boo
 				// the compared value is x + c: the fact transfers to x
 				if bo2, ok := iv.(*ssa.BinOp); ok && bo2.Op == token.ADD {
 					if c, ok := constIntVal(bo2.Y); ok && c >= 0 {
-						g := r4fact{k.num.id(bo2.X), k.num.id(root)}
+						g := r4fact{k.iid(bo2.X), k.num.id(root)}
 						if cur, ok := s.d[g]; !ok || cur < est+int(c) {
 							s = s.with(g, est+int(c))
 						}
+					}
+				}
+			}
+		}
+	}
+	// i OP n with n a value already bounded by an input length (n := len(x), possibly clamped to a smaller count):
+	// the bound carries over
+	if bo, ok := cond.(*ssa.BinOp); ok {
+		op := bo.Op
+		if !outcome {
+			switch op {
+			case token.LSS:
+				op = token.GEQ
+			case token.LEQ:
+				op = token.GTR
+			case token.GTR:
+				op = token.LEQ
+			case token.GEQ:
+				op = token.LSS
+			default:
+				op = token.ILLEGAL
+			}
+		}
+		for _, pr := range [][2]ssa.Value{{bo.X, bo.Y}, {bo.Y, bo.X}} {
+			o := op
+			if pr[0] != bo.X {
+				o = flipCmp(op)
+			}
+			extra := -1
+			switch o {
+			case token.LSS: // pr[0] < pr[1]
+				extra = 1
+			case token.LEQ:
+				extra = 0
+			}
+			if extra < 0 {
+				continue
+			}
+			if _, isC := pr[0].(*ssa.Const); isC {
+				continue
+			}
+			wid, iid := k.iid(pr[1]), k.iid(pr[0])
+			for f, d := range s.d {
+				if f.idx == wid {
+					g := r4fact{iid, f.base}
+					if cur, ok := s.d[g]; !ok || cur < d+extra {
+						s = s.with(g, d+extra)
 					}
 				}
 			}
